@@ -19,7 +19,8 @@ use std::collections::{BTreeMap, BTreeSet};
 pub struct C11 {}
 
 /// generator switch: do not produce `require("./x")` next to a file literally named `x`
-const AVOID_EXTENSIONLESS_REQUIRE: bool = true;
+// (the panic on extension-less requires was repaired by a "fix:" commit: exercised again)
+const AVOID_EXTENSIONLESS_REQUIRE: bool = false;
 
 const MISSING_FILE: &str = "dlverif-this-file-does-not-exist/none.txt";
 
